@@ -1086,6 +1086,9 @@ sexp sexp_apply (sexp ctx, sexp proc, sexp args) {
   sexp_gc_var3(self, tmp1, tmp2);
   sexp_gc_preserve3(ctx, self, tmp1, tmp2);
   fp = top - 4;
+#if CHIBI_VERIF
+  sexp_verif_arm(1);
+#endif
   self = sexp_global(ctx, SEXP_G_FINAL_RESUMER);
   bc = sexp_procedure_code(self);
   cp = sexp_procedure_vars(self);
@@ -1144,6 +1147,10 @@ sexp sexp_apply (sexp ctx, sexp proc, sexp args) {
     }
     fuel = sexp_context_refuel(ctx);
     if (fuel <= 0) goto end_loop;
+#if CHIBI_VERIF
+    if (sexp_applicablep(sexp_global(ctx, SEXP_G_THREADS_SCHEDULER)))
+      fuel = sexp_verif_next_slice(fuel);
+#endif
     if (sexp_context_waitp(ctx)) {
       fuel = 1;
       goto loop;  /* we were still waiting, try again */
@@ -2310,6 +2317,9 @@ sexp sexp_apply (sexp ctx, sexp proc, sexp args) {
 #if SEXP_USE_DEBUG_THREADS
       fprintf(stderr, "****** schedule %p: terminating %p (%s)\n",
               root_thread, ctx, sexp_thread_debug_name(ctx));
+#endif
+#if CHIBI_VERIF
+      sexp_verif_emit("\"e\":\"End\",\"t\":%d,\"err\":%d", sexp_verif_thread_id(ctx), sexp_exceptionp(_ARG1) ? 1 : 0);
 #endif
       sexp_context_refuel(ctx) = fuel = 0;
       goto loop;
